@@ -57,7 +57,7 @@ def random_tier(work, rep, hbin, rich, n):
     for l in r.tagged("@@MISMATCH"):
         m = json.loads(l)
         e = lines[m["line"] - 1]
-        bad.append({"schema": e["text"], "doc": e["doctext"], "want": m["what"], "got": {"ok": e["ok"], "code": e["code"]}, "abstract": e["schema"], "env": e["env"], "opt": e["opt"], "what": "random"})
+        bad.append({"schema": e["text"], "doc": e["doctext"], "want": m["what"], "got": {"ok": e.get("ok", e.get("oks")), "code": e.get("code")}, "abstract": e.get("schema"), "env": e.get("env"), "opt": e.get("opt"), "what": "random"})
     if lines:
-        rep.sample({"random_schema": lines[len(lines) // 2]["text"], "doc": lines[len(lines) // 2]["doctext"], "ok": lines[len(lines) // 2]["ok"]})
+        rep.sample({"random_schema": lines[len(lines) // 2]["text"], "doc": lines[len(lines) // 2]["doctext"], "ok": lines[len(lines) // 2].get("ok")})
     return bad
